@@ -41,6 +41,20 @@ def mirLin (n v : V3) : V3 := v - V3.smul (2 * V3.dot v n / V3.dot n n) n
 /-- `functions.mirror(point, normal, origin)` (after the repair: a pure function) -/
 def mirP (n o p : V3) : V3 := mirLin n (p - o) + o
 
+def absQ (x : Rat) : Rat := if x < 0 then -x else x
+
+/-- `constants.TOL` -/
+def shearTol : Rat := 1 / 10000000
+
+/-- `Point.shear(normal, origin, direction, angle)` / one row of `Array.shear`: the point moves along `direction` by its
+    DISTANCE from the plane `(origin, normal)` — an absolute value — times `cot angle`; a point within `TOL` of the plane
+    stays.  `sn`, `sd` are the witnesses of `|normal|`, `|direction|` (the code normalises both), `c = cot angle`.
+    Shear is not one of the four transformations of C09 (it is not a similarity, and as coded not even affine: both
+    sides of the plane move the same way); it is modelled at the level of points and arrays only. -/
+def shearP (n o d : V3) (sn sd c : Rat) (p : V3) : V3 :=
+  let dist := absQ (V3.dot (p - o) n) / sn
+  if dist > shearTol then p + V3.smul (dist * c / sd) d else p
+
 /-- A transformation as the caller writes it: the origin may be left out. -/
 inductive Tr where
   | translate (d : V3)
@@ -763,8 +777,21 @@ def handleWf (args : List String) : Option String :=
   | some ([_], some bad) => some ("bad " ++ bad)
   | _ => none
 
+/-- `c09.shear <n> <o> <d> <sn> <sd> <cot> <point…>` → images (witnesses checked to 1e-9 relative) -/
+def handleShear (args : List String) : Option String :=
+  match args with
+  | n :: o :: d :: sn :: sd :: c :: pts => do
+      let n ← parseV3? n; let o ← parseV3? o; let d ← parseV3? d
+      let sn ← parseRat? sn; let sd ← parseRat? sd; let c ← parseRat? c
+      let ps ← pts.mapM parseV3?
+      let ok (s : Rat) (v : V3) : Bool := s > 0 && absQ (s * s - V3.dot v v) ≤ (1 / 1000000000) * (1 + V3.dot v v)
+      if !(ok sn n && ok sd d) then some "bad-witness" else
+      some ("ok " ++ " ".intercalate (ps.map (fun p => (shearP n o d sn sd c p).toStr)))
+  | _ => none
+
 def handle (op : String) (args : List String) : Option String :=
   match op with
+  | "c09.shear" => handleShear args
   | "c09.run" => handleRun args
   | "c09.prim" => handlePrim args
   | "c09.wf" => handleWf args
